@@ -505,3 +505,57 @@ MA('C12', 'accelerated prox gradient saves alias', 'odl/solvers/nonsmooth/proxim
    'accelerated_proximal_gradient')
 MA('C12', 'power method first normalisation dropped', 'odl/operator/oputils.py',
    'power_method_opnorm', 'x /= x_norm', 'pass', 'power_method_opnorm', nth=0)
+
+# ---- C14 -------------------------------------------------------------------
+PARTF = 'odl/discr/partition.py'
+GRIDF = 'odl/discr/grid.py'
+MA('C14', 'grid placement 2n instead of 2n-1', GRIDF, 'uniform_grid_fromintv',
+   'gmax.append(xmax - (xmax - xmin) / (2 * n - 1))',
+   'gmax.append(xmax - (xmax - xmin) / (2 * n))', 'uniform_grid_fromintv')
+MA('C14', 'first cell size from stride', PARTF,
+   'RectPartition.cell_sizes_vecs',
+   'csize[0] = (cvec[0] + cvec[1]) / 2 - self.min()[ax]',
+   'csize[0] = cvec[1] - cvec[0]', 'RectPartition.cell_sizes_vecs')
+MA('C14', 'searchsorted side right', PARTF, 'RectPartition.index',
+   'ind = np.searchsorted(cell_bdry_vec, val)',
+   "ind = np.searchsorted(cell_bdry_vec, val, side='right')",
+   'RectPartition.index')
+MA('C14', 'index last edge exception dropped', PARTF, 'RectPartition.index',
+   'if floating:...', '''if floating:
+    if cell_bdry_vec[ind] == val:
+        result.append(float(ind))
+    else:
+        csize = float(cell_bdry_vec[ind] - cell_bdry_vec[ind - 1])
+        result.append(ind - (cell_bdry_vec[ind] - val) / csize)
+elif cell_bdry_vec[ind] == val:
+    result.append(ind)
+else:
+    result.append(ind - 1)''', 'RectPartition.index')
+MA('C14', 'completion of max_pt ignores boundary nodes', PARTF,
+   'uniform_partition',
+   'max_pt[i] = xmin + (n - sum([bdry_l, bdry_r]) / 2.0) * dx',
+   'max_pt[i] = xmin + n * dx', 'uniform_partition')
+MA('C14', 'getitem takes max from the left boundaries', PARTF,
+   'RectPartition.__getitem__', 'sub_max_pt = cvec[1:][idx]',
+   'sub_max_pt = cvec[:-1][idx]', 'RectPartition.__getitem__')
+MA('C14', 'inner boundaries not midpoints', PARTF, 'RectPartition.__init__',
+   'bdry[1:-1] = (vec[1:] + vec[:-1]) / 2.0', 'bdry[1:-1] = vec[1:]',
+   'RectPartition.__init__')
+MA('C14', 'normalizer 1-d pair regression', 'odl/util/normalize.py',
+   'normalized_nodes_on_bdry',
+   'return [(nodes_on_bdry[0], nodes_on_bdry[1])]',
+   'return [nodes_on_bdry[0], nodes_on_bdry[1]]', 'normalized_nodes_on_bdry')
+MA('C14', 'fromgrid default max a full stride', PARTF,
+   'uniform_partition_fromgrid',
+   'max_pt_vec[ax] = cvec[-1] + (cvec[-1] - cvec[-2]) / 2',
+   'max_pt_vec[ax] = cvec[-1] + (cvec[-1] - cvec[-2])',
+   'uniform_partition_fromgrid')
+MA('C14', 'boundary fraction uses wrong stride', PARTF,
+   'RectPartition.boundary_cell_fractions',
+   'right_frac = 0.5 + (bmax - cvec[-1]) / (cvec[-1] - cvec[-2])',
+   'right_frac = 0.5 + (bmax - cvec[-1]) / (cvec[1] - cvec[0])',
+   'RectPartition.boundary_cell_fractions')
+MA('C14', 'shape completion sign', PARTF, 'uniform_partition',
+   'n_calc = (xmax - xmin) / dx + sum([bdry_l, bdry_r]) / 2.0',
+   'n_calc = (xmax - xmin) / dx - sum([bdry_l, bdry_r]) / 2.0',
+   'uniform_partition')
